@@ -44,9 +44,22 @@ def prepare(mod, demod):
             o.reset_state()
 
 
-def run_one(m, via_registry, shape, tl, obs, mutate=None):
+LONG_SYMBOLS = 1030                      # crosses 256 / 512 / 1024: typical block sizes of vectorised implementations
+LONG_WINDOW = (256, 512, 768, 1024)      # symbols whose bits are symbolic in a long frame (the rest is a fixed pseudo-random pattern)
+
+
+def long_pattern(n):
+    """fixed pseudo-random 0/1 pattern (LCG), independent of torch's RNG"""
+    out, x = [], 12345
+    for _ in range(n):
+        x = (1103515245 * x + 12345) % (1 << 31)
+        out.append(float((x >> 16) & 1))
+    return out
+
+
+def run_one(m, via_registry, shape, tl, obs, mutate=None, long=False):
     bps = m["bps"]
-    config = f"{m['name']}{' via registry' if via_registry else ''} layout={tuple(shape)}"
+    config = f"{m['name']}{' via registry' if via_registry else ''} layout={tuple(shape)}" + (f" long frame, symbolic symbols {LONG_WINDOW}" if long else "")
 
     def rec(clause, status, **kw):
         obs.append(ob(clause, config, status, **kw, **tl.take()))
@@ -57,9 +70,19 @@ def run_one(m, via_registry, shape, tl, obs, mutate=None):
     for s in shape:
         n *= s
 
+    wpos = [s_ * bps + j for s_ in LONG_WINDOW for j in range(bps)] if long else []
+
+    def mkinput():
+        if not long:
+            return fresh_bits("b", shape)
+        base = torch.tensor(long_pattern(n))
+        w = fresh_bits("b", (len(wpos),))
+        base[torch.tensor(wpos)] = w          # symbolic bits written into the concrete frame
+        return base
+
     def run(ctx):
         prepare(mod, demod)
-        b = fresh_bits("b", shape)
+        b = mkinput()
         y = mod(b)
         d = demod(y)
         return dict(b=b, y=y, d=d)
@@ -86,7 +109,7 @@ def run_one(m, via_registry, shape, tl, obs, mutate=None):
         def realfn(b):
             prepare(mod, demod)
             return demod(mod(b))
-        okc, detail = concolic(ctx, {"b": R["b"]}, realfn, [R["d"]], tl)
+        okc, detail = (True, "") if long else concolic(ctx, {"b": R["b"]}, realfn, [R["d"]], tl)
         if not okc:
             rec("harness", "error", what="concolic disagreement: " + detail)
             continue
@@ -101,13 +124,23 @@ def run_one(m, via_registry, shape, tl, obs, mutate=None):
         pairs = [(o, e) for o, e in zip(out, flat_exp) if e is not None]
         st, model = decide(ctx, differs([p[0] for p in pairs], [p[1] for p in pairs]))
         if st == "violated":
-            bb = model_bits(model, "b", n)
+            if long:
+                wb = model_bits(model, "b", len(wpos))
+                bb = [int(v) for v in long_pattern(n)]
+                for q, v in zip(wpos, wb):
+                    bb[q] = v
+            else:
+                bb = model_bits(model, "b", n)
             with _disable_current_modes():
                 bt = real_bits(bb, shape)
                 got = [int(round(float(v))) for v in realfn(bt).flatten().tolist()]
             exp_c = [e for row in expected(m, bb, shape, bps) for e in row]
             rep = any(e is not None and g != e for g, e in zip(got, exp_c))
-            rec("roundtrip", st, what=f"bits {bb} -> demodulated {got}, expected {['-' if e is None else e for e in exp_c]}", witness={"bits": bb, "layout": list(shape)}, replay={"reproduced": rep})
+            if long:
+                wrong = [i for i, (g, e) in enumerate(zip(got, exp_c)) if e is not None and g != e]
+                rec("roundtrip", st, what=f"long frame of {n // bps} symbols: bit positions {wrong[:12]} come back wrong (window bits {wb})", witness={"window_bits": wb, "layout": list(shape), "wrong_positions": wrong[:40]}, replay={"reproduced": rep})
+            else:
+                rec("roundtrip", st, what=f"bits {bb} -> demodulated {got}, expected {['-' if e is None else e for e in exp_c]}", witness={"bits": bb, "layout": list(shape)}, replay={"reproduced": rep})
         else:
             rec("roundtrip", st, sample=dict(query=f"exists bits in {{0,1}}^{list(shape)}: demod(mod(bits)) != bits (start-up convention: {m['memory'] or 'none'})", result=st))
 
@@ -135,9 +168,16 @@ def work(item):
                     shapes = shapes[:2]
                 for shape in shapes:
                     run_one(m, via, shape, tl, obs)
+        if m["name"] in LONG_MODEMS and (TIER == "thorough" or m["name"] in LONG_QUICK):
+            run_one(m, False, (LONG_SYMBOLS * bps,), tl, obs, long=True)
     except NotEncodable as e:
         obs.append(ob("harness", m["name"], "error", what=f"NotEncodable: {e}"))
     return obs
+
+
+LONG_QUICK = ("DPSK4(gray=False)", "PSK4(gray=True)", "QAM16(gray=True,normalize=True)")
+LONG_MODEMS = LONG_QUICK + ("BPSK", "DBPSK", "DPSK2(gray=False)", "DPSK8(gray=False)", "QPSK(normalize=True)", "PSK8(gray=True)", "PAM4(gray=True,normalize=True)", "OQPSK(normalize=True)",
+                            "Pi4QPSK(gray_coded=False)", "QAM4(gray=True,normalize=True)")
 
 
 def replay(body):
@@ -160,6 +200,7 @@ def main():
                MM.QAMModulator.forward, MM.QAMDemodulator.forward, MM.PAMModulator.forward, MM.PAMDemodulator.forward, MM.DPSKModulator.forward, MM.DPSKDemodulator.forward,
                MM.OQPSKModulator.forward, MM.OQPSKDemodulator.forward, MM.Pi4QPSKModulator.forward, MM.Pi4QPSKDemodulator.forward, MM.IdentityModulator.forward)
     ck.bound("inputs", f"every bit sequence of L = {tier(2, 3)} symbols (2 for orders > 16) in layouts (bL,), (2,bL), (2,2,bL): one query per output tensor")
+    ck.bound("long frames", f"{LONG_SYMBOLS} symbols with the bits of symbols {LONG_WINDOW} symbolic and a fixed pseudo-random pattern elsewhere (block/chunk boundaries of vectorised code): {len(LONG_QUICK)} modems (quick) / {len(LONG_MODEMS)} (thorough)")
     ck.bound("catalogue", f"{len(items) - 1} scheme/order/labelling/normalisation options, each also through ModulationRegistry.create where registered")
     ck.assume("values that depend on a few input bits are kept as finite tables whose leaves are computed by torch itself (exact float32/complex64): no reals-for-floats gap in this check")
     ck.assume("memory schemes: after reset_state() and eval(); DPSK: the reference symbol's bits are not returned; OQPSK: quadrature stream delayed by one symbol, its first output (reset state) unconstrained")
